@@ -19,19 +19,20 @@ pub enum MK { // mark kinds
 pub struct Mark { pub off: usize, pub len: usize, pub kind: MK }
 #[derive(Debug, Clone)]
 pub struct Deletable { pub off: usize, pub len: usize, pub err: &'static str, pub tok: &'static str, pub at_mark: Option<usize> /* index into `anchors` giving expected position */ }
-pub struct G<'a> { pub u: Src<'a>, pub out: String, pub marks: Vec<Mark>, pub dels: Vec<Deletable>, pub anchors: Vec<usize>, pub depth: usize, pub feats: Vec<&'static str>, pub in_macro: usize, pub str_regions: Vec<(usize, usize)>, pub last_int: bool, pub max_depth: usize, pub open_parens: usize, pub open_calls: usize, pub open_text: usize, pub force_nonword: bool, pub trunc_points: Vec<(usize, usize, usize, usize)> }
+pub struct G<'a> { pub u: Src<'a>, pub out: String, pub marks: Vec<Mark>, pub dels: Vec<Deletable>, pub anchors: Vec<usize>, pub depth: usize, pub feats: Vec<&'static str>, pub in_macro: usize, pub str_regions: Vec<(usize, usize)>, pub last_int: bool, pub max_depth: usize, pub open_parens: usize, pub open_calls: usize, pub open_text: usize, pub force_nonword: bool, pub lenient: bool, pub trunc_points: Vec<(usize, usize, usize, usize)> }
 
 const IDENTS: &[&str] = &["a", "b", "x1", "_v", "abc", "var_2", "tbl", "col", "é1", "mylib", "Z"];
 const MNAMES: &[&str] = &["m", "mymac", "util_1", "_m", "doit", "M2"];
 // names of *called* macros may contain non-ASCII letters (definitions stay ASCII, as the lexer documents)
-const CALLNAMES: &[&str] = &["m", "mymac", "util_1", "_m", "doit", "M2", "größe", "тест", "é", "m"];
+// (the last names have a macro keyword as a prefix: they are ordinary user macros)
+const CALLNAMES: &[&str] = &["m", "mymac", "util_1", "_m", "doit", "M2", "größe", "тест", "é", "m", "whilex", "until_v", "dox", "endx", "letx", "strx", "evalx", "thenx", "tox", "byx", "WHILE2", "mendy", "ifa", "putx"];
 const MVARS: &[&str] = &["v", "mv", "i", "n1", "_x", "lib", "Dsn", "é", "тест"];
 const OPEN_KW: &[&str] = &["data", "set", "run", "proc", "if", "then", "else", "do", "end", "by", "where", "select", "from", "output", "keep", "format", "input", "put", "length", "_null_", "and", "or", "not", "in", "eq", "ne"];
 const OPEN_SYM: &[&str] = &["=", "+", "-", "/", "<", ">", "<=", ">=", "^=", "~=", "||", "|", "!!", ",", ".", ":", "@", "#", "?", "**", "<>", "><", "=*", "{", "}", "[", "]", "&", "&&", "%", "$", "¬", "¬=", "!", "¦", "¦¦", "∘", "^"];
 const WORDS: &[&str] = &["a", "abc", "x1", "some", "text", "v_1", "é", "data", "q2"];
 
 impl<'a> G<'a> {
-    pub fn new(data: &'a [u8]) -> G<'a> { G { u: Src::new(data), out: String::new(), marks: vec![], dels: vec![], anchors: vec![], depth: 0, feats: vec![], in_macro: 0, str_regions: vec![], last_int: false, max_depth: 0, open_parens: 0, open_calls: 0, open_text: 0, force_nonword: false, trunc_points: vec![] } }
+    pub fn new(data: &'a [u8]) -> G<'a> { G { u: Src::new(data), out: String::new(), marks: vec![], dels: vec![], anchors: vec![], depth: 0, feats: vec![], in_macro: 0, str_regions: vec![], last_int: false, max_depth: 0, open_parens: 0, open_calls: 0, open_text: 0, force_nonword: false, lenient: false, trunc_points: vec![] } }
     fn d_inc(&mut self) { self.depth += 1; if self.depth > self.max_depth { self.max_depth = self.depth; } }
     fn p(&mut self, s: &str) { self.out.push_str(s); }
     // a macro keyword in a random letter case (keywords are case-insensitive)
@@ -446,7 +447,7 @@ impl<'a> G<'a> {
         self.feat("do"); self.pk("%do");
         match self.u.below(5) {
             0 | 1 => { self.ows(); self.mark(";", MK::Delim("SEMI", false)); }
-            2 => { self.feat("do-iter"); self.rws(); self.name_expr(); self.ows(); self.del_mark("=", "ASSIGN", "MissingExpectedAssign", false); self.ows(); self.eval_expr(false, false); self.rgap_after_expr(); self.pk("%to"); self.kgap(); self.eval_expr(false, false); if self.u.coin(1, 2) { self.rgap_after_expr(); self.pk("%by"); self.kgap(); self.eval_expr(false, false); } self.gap_after_expr(); self.mark(";", MK::Delim("SEMI", false)); }
+            2 => { self.feat("do-iter"); self.rws(); self.name_expr(); self.ows(); self.del_mark("=", "ASSIGN", "MissingExpectedAssign", false); self.ows(); self.eval_expr(false, false); self.rgap_after_expr(); self.pk("%to"); self.kgap(); self.eval_expr(false, false); if self.u.coin(1, 2) { self.rgap_after_expr(); self.pk("%by"); self.kgap(); self.eval_expr(false, false); self.gap_after_expr(); self.mark(";", MK::Delim("SEMI", false)); } else if self.lenient && self.u.coin(1, 3) { self.feat("do-iter-while"); self.rgap_after_expr(); let k = self.pick(&["%while", "%until", "%WHILE"]); self.p(k); self.ows(); self.del_mark("(", "LPAREN", "MissingExpectedLParen", false); self.ows(); self.eval_expr(false, false); self.ows_after_expr(); self.mark(")", MK::Delim("RPAREN", false)); self.ows(); self.del_mark(";", "SEMI", "MissingExpectedSemiOrEOF", false); } else { self.gap_after_expr(); self.mark(";", MK::Delim("SEMI", false)); } }
             3 => { self.feat("do-while"); self.tgap(); self.pk("%while"); self.ows(); self.del_mark("(", "LPAREN", "MissingExpectedLParen", false); self.ows(); self.eval_expr(false, false); self.ows_after_expr(); self.mark(")", MK::Delim("RPAREN", false)); self.ows(); self.del_mark(";", "SEMI", "MissingExpectedSemiOrEOF", false); }
             _ => { self.feat("do-until"); self.tgap(); self.pk("%until"); self.ows(); self.del_mark("(", "LPAREN", "MissingExpectedLParen", false); self.ows(); self.eval_expr(false, false); self.ows_after_expr(); self.mark(")", MK::Delim("RPAREN", false)); self.ows(); self.del_mark(";", "SEMI", "MissingExpectedSemiOrEOF", false); }
         }
